@@ -83,7 +83,7 @@ def decorate(r, top, idpool):
     def go(t, depth):
         if t[0] == "e":
             attrs = [(a, (r.choice(BOUNDARY_TEXT) if (not a.startswith("xml") and r.random() < 0.35) else v)) for a, v in t[2]]
-            if r.random() < 0.5 and idpool:
+            if (r.random() < 0.5 or depth == 0) and idpool:
                 v = idpool.pop()
                 ids.append(v)
                 attrs.append(("k", v))
@@ -96,7 +96,7 @@ def decorate(r, top, idpool):
             if k < 0.4:
                 v = r.choice(BOUNDARY_TEXT)
                 return ("t", v) if v else t
-            if k < 0.5 and ids:
+            if k < 0.6 and ids:
                 seps = [" ", "  ", "\t", "\n", " \t\n", "\r\n"]
                 return ("t", r.choice(["", " "]) + r.choice(seps).join(r.choice(ids + ["nope"]) for _ in range(r.randrange(1, 4))) + r.choice(["", "\n"]))
             return t
@@ -105,7 +105,11 @@ def decorate(r, top, idpool):
 
 
 def make_doc(r, size=None):
-    top = xpgen.gen_doc(r, size or ("small" if r.random() < 0.7 else "big"))
+    top = xpgen.gen_doc(r, size or ("small" if r.random() < 0.35 else "big"))
+    for _ in range(3):      # very small trees exercise little: prefer documents with a dozen nodes or more
+        if len(xpgen.doc_tokens(top).split()) >= 14 or size:
+            break
+        top = xpgen.gen_doc(r, "big")
     pool = ["i%d" % i for i in range(1, 30)] + ["a", "x-1", "é1", "I1", "i1.b", "_z"]
     r.shuffle(pool)
     top, ids = decorate(r, top, pool)
@@ -121,6 +125,32 @@ def make_doc(r, size=None):
 # ---------------------------------------------------------------------------------------------------------
 # item generation.  item = {"ty", "ast", "cls", "model": None | (op, argument item indices ...)}
 
+def broad(r, numeric=False):
+    """node-set expressions that select many nodes of any document (so that results are rarely empty)"""
+    ds = [("root", "root", []), ("descendant-or-self", "node", [])]
+    star = ("name", None, None)
+    nm = lambda x: ("name", None, x)
+    if numeric:
+        last = r.choice([("attribute", nm("x"), []), ("attribute", nm("y"), []), ("attribute", nm("n"), []), ("attribute", star, []),
+                         ("child", "text", []), ("child", "text", []), ("child", star, [])])
+    else:
+        last = r.choice([("child", star, []), ("child", star, []), ("child", star, []), ("child", "node", []), ("child", "node", []),
+                         ("attribute", star, []), ("attribute", star, []), ("child", "text", []), ("child", "text", []),
+                         ("child", nm(r.choice("ab")), []), ("child", nm("b"), []), ("child", "comment", []),
+                         ("attribute", nm(r.choice(["x", "y", "n", "id"])), [])])
+    e = ("path", None, [], ds + [last])
+    k = r.random()
+    if k < 0.25:
+        pe = r.choice([("lt", fn("position"), num(r.choice(["3", "4", "6"]))), ("gt", fn("position"), num(r.choice(["1", "2", "3"]))),
+                       ("eq", ("mod", fn("position"), num("2")), num(r.choice(["0", "1"])))])
+        e = filt(e, (True, pe))
+    elif k < 0.4:
+        e = ("union", [e, ("path", None, [], ds + [r.choice([("child", nm("a"), []), ("attribute", nm("x"), []), ("child", "text", [])])])])
+    elif k < 0.5 and not numeric:
+        e = ("path", None, [], ds + [("child", nm(r.choice("abc")), []), ("child", "node", [])])
+    return e
+
+
 def gen_nodeset_items(ctx, doc, n_pairs):
     r = ctx.rng
     items = []
@@ -134,11 +164,8 @@ def gen_nodeset_items(ctx, doc, n_pairs):
         tries += 1
         g = xpgen.ExprGen(r, nodes=doc["nodes"], depth=r.choice([1, 1, 2, 2]), variables={})
         a = g.gen("nodes", r.choice([0, 1, 1, 2]))
-        if r.random() < 0.25:
-            a = ("path", None, [], [("root", "root", []), ("descendant-or-self", "node", []),
-                                    (r.choice(["child", "child", "attribute"]), r.choice(["node", ("name", None, None)]), [])])
-            if a[3][2][0] == "attribute":
-                a = ("path", None, [], a[3][:2] + [("attribute", ("name", None, None), [])])
+        if r.random() < 0.6:
+            a = broad(r)
         k = r.random()
         if k < 0.2:
             b, rel = a, "same"
@@ -154,7 +181,7 @@ def gen_nodeset_items(ctx, doc, n_pairs):
         elif k < 0.7:
             b, rel = EMPTY, "empty"
         else:
-            b, rel = g.gen("nodes", r.choice([0, 1])), "independent"
+            b, rel = (broad(r) if r.random() < 0.6 else g.gen("nodes", r.choice([0, 1]))), "independent"
         if r.random() < 0.08:
             a, rel = EMPTY, "empty-first"
         if any(has_axis(x, "namespace") for x in (a, b)) or not printable(a) or not printable(b):
@@ -172,7 +199,11 @@ def gen_nodeset_items(ctx, doc, n_pairs):
         if r.random() < 0.3:
             add("ns", fn("set:distinct", fn("set:distinct", a)), "distinct-twice", None)
         # math over the same sets, with and without the non-numeric nodes
-        m = a if r.random() < 0.35 else filt(a, NUMERIC_ONLY)
+        m = broad(r, numeric=True) if r.random() < 0.5 else a
+        if r.random() < 0.65:
+            m = filt(m, NUMERIC_ONLY)
+        if r.random() < 0.3:
+            m = filt(m, (True, ("lt", fn("position"), num(r.choice(["3", "4", "5"])))))
         im = add("ns", m, "arg")
         for name, op in r.sample([("math:min", "min"), ("math:max", "max")], 2):
             add("num", fn(name, m), name, (op, im))
@@ -269,7 +300,7 @@ def gen_string_items(ctx, n):
     return items
 
 
-def gen_id_items(ctx, doc, n):
+def gen_id_items(ctx, doc, n, base=0):
     r = ctx.rng
     items = []
     idvals = list(doc["ids"]) or ["i1"]
@@ -287,11 +318,13 @@ def gen_id_items(ctx, doc, n):
         elif k < 0.85:
             g = xpgen.ExprGen(r, nodes=doc["nodes"], depth=1, variables={})
             a = g.gen("nodes", r.choice([0, 1]))
-            if r.random() < 0.5:
+            if r.random() < 0.6:
                 a = ("path", None, [], [("root", "root", []), ("descendant-or-self", "node", []), ("child", "text", [])])
+                if r.random() < 0.5:
+                    a = filt(a, (False, fn("contains", DOT, lit(r.choice(["i", "i1", "i2", " "])))))
             if has_axis(a, "namespace") or not printable(a):
                 continue
-            ia = len(items)
+            ia = base + len(items)
             items.append({"ty": "ns", "ast": a, "cls": "arg", "model": None})
             items.append({"ty": "ns", "ast": fn("id", a), "cls": "id:node-set", "model": ("idns", ia)})
         else:
@@ -565,6 +598,8 @@ def judge(item, got, exp):
         return "library %r, definition %r" % (got, exp)
     if isinstance(exp, list) and any(isinstance(x, tuple) for x in exp):
         return None
+    if isinstance(exp, float) and not isinstance(exp, bool) and exp == exp and exp != 0 and abs(exp) < 2.0 ** -63:
+        return None      # number -> string of such magnitudes is C18's known finding K5; the value cannot be observed exactly
     if isinstance(exp, float) and not isinstance(exp, bool) and item["cls"].startswith("math:") and item["cls"] not in ("math:min", "math:max"):
         return None if (isinstance(got, float) and (xpxref.close(got, exp) or same_value(got, exp))) else "library %r, definition %r" % (got, exp)
     if isinstance(exp, list) and isinstance(got, list):
@@ -601,6 +636,8 @@ def run_stream(ctx, exe, model, batches, known, hits, stats):
                 continue
             stats["distinct"].add(xpgen.p_expr(it["ast"]))
             got = vals[i]
+            if (isinstance(got, list) and got) or (isinstance(got, float) and got == got) or got is True:
+                ctx.count("nonempty-result:" + it["cls"].split(":")[0] + (":" + it["cls"].split(":")[1] if ":" in it["cls"] else ""))
             # ---- correspondence line
             if model:
                 ml = model_line("%s.%d" % (b["id"], i), it, vals, doc, ref)
@@ -706,7 +743,7 @@ def make_batches(ctx, n_docs, scale=1):
             cn = r.choice(cands)
             items = gen_nodeset_items(ctx, doc, 3 * scale)
             if c == 0:
-                items += gen_id_items(ctx, doc, 8 * scale)
+                items += gen_id_items(ctx, doc, 8 * scale, base=len(items))
             else:
                 items += gen_math_items(ctx, 6 * scale) + gen_string_items(ctx, 10 * scale)
             batches.append({"id": "d%dc%d" % (d, c), "doc": doc, "ctx": cn, "items": items})
